@@ -119,13 +119,15 @@ def panic_abort(it, st, fn, args, dest, target):
 
 def catch_unwind_cleanup(it, st, fn, args, dest, target):
     st.panic_count -= 1
-    exc = st.exc
-    st.exc = None
-    it.ret_blob(st, dest, target, exc)
+    if not st.exc:
+        raise PathEnd("engine-error", "catch_unwind cleanup without an exception in flight")
+    exc = st.exc[-1]
+    st.exc = st.exc[:-1]
+    it.ret_blob(st, dest, target, list(exc))
 
 
 def resume_unwind(it, st, fn, args, dest, target):
-    st.exc = list(args[0][0])
+    st.exc = (st.exc or ()) + (list(args[0][0]),)
     st.panic_count += 1
     st.unwinding = True
     st.trace.append(("resume",))
@@ -492,16 +494,45 @@ def fmt_builder_new(it, st, fn, args, dest, target):
     it.goto(st, target)
 
 
+def _builder_result_loc(it, st, arg):
+    """(alloc, off) of the `result: fmt::Result` byte of a DebugStruct / DebugTuple / DebugInner"""
+    blob, tid = arg
+    p = it.scalar_of(st, blob, 8)
+    pt = it.prog.pointee(tid)
+    off = 0
+    while True:
+        t = it.prog.types[pt]
+        names = [f["name"] for f in t["variants"][0]["fields"]]
+        if "result" in names:
+            o, _ = _field_off_by_name(it, pt, "result")
+            return (p.alloc, p.off + off + o)
+        if "inner" in names:
+            o, ft = _field_off_by_name(it, pt, "inner")
+            off += o
+            pt = ft
+            continue
+        return None
+
+
 def fmt_builder_field(it, st, fn, args, dest, target):
-    """DebugStruct::field(self, name, value) / DebugTuple::field(self, value) / DebugList::entry(self, value) -> self"""
+    """DebugStruct::field(self, name, value) / DebugTuple::field(self, value) / DebugList::entry(self, value) -> self.
+    As in core: the member is formatted only if no earlier member failed; a failure is remembered in `result`."""
     fmt_ptr = _fmt_ptr_of_builder(it, st, args[0])
+    loc = _builder_result_loc(it, st, args[0])
+    if loc is not None and it.concretize(st, st.read_scalar(loc[0], loc[1], 1)) != 0:
+        it.ret_blob(st, dest, target, list(args[0][0]))
+        return
     value = args[-1][0]
     call = _dyn_debug_call(it, st, value, fmt_ptr)
-    it.run_script(st, [call], list(args[0][0]), dest, target)
+    it.run_script(st, [call], list(args[0][0]), dest, target, on_err=loc)
 
 
 def fmt_builder_finish(it, st, fn, args, dest, target):
-    it.ret_blob(st, dest, target, OK_RESULT)
+    loc = _builder_result_loc(it, st, args[0])
+    r = 0
+    if loc is not None:
+        r = it.concretize(st, st.read_scalar(loc[0], loc[1], 1))
+    it.ret_blob(st, dest, target, [(0, 1, r)])
 
 
 def fmt_fields_finish(it, st, fn, args, dest, target):
@@ -527,7 +558,7 @@ def fmt_fields_finish(it, st, fn, args, dest, target):
                 n = it.concretize(st, n)
                 for i in range(n):
                     calls.append(_dyn_debug_call(it, st, st.read_blob(base.alloc, base.off + 16 * i, 16), fmt_ptr))
-    it.run_script(st, calls, OK_RESULT, dest, target)
+    it.run_script(st, calls, OK_RESULT, dest, target, final_from_acc=True)
 
 
 def fmt_ok(it, st, fn, args, dest, target):
